@@ -152,8 +152,10 @@ class PathState:
         raise ValueError(sort)
 
     def fresh_id(self):
+        # a string the engine does not model: an UNCONSTRAINED symbol.  (It used to be a distinct constant,
+        # which silently decided `key in seen` for two equal formatted strings - found by the differential test.)
         self.next_fresh_id += 1
-        return IdStr(z3.IntVal(-self.next_fresh_id))
+        return IdStr(z3.Int(f"str!{self.next_fresh_id}"))
 
     # --- path condition
     def assume(self, c):
@@ -689,6 +691,8 @@ class Interp:
         if isinstance(op, ast.USub):
             if a is NAN:
                 return NAN
+            if a is INF:
+                return INF  # an infinity of either sign
             if isinstance(a, Num):
                 return Num(-a.v, a.tag, getattr(a, "rounded", False))
             if isinstance(a, (int, float, Fraction)) and not isinstance(a, bool):
@@ -703,11 +707,32 @@ class Interp:
 
     # ---------------------------------------------------------------- strings
     def fresh_str(self, parts):
-        return self.ps.fresh_id()
+        """A string the engine does not model (formatting, concatenation with symbolic pieces): an
+        unconstrained symbol, except that a concatenation with a piece known to be non-empty is not ""."""
+        r = self.ps.fresh_id()
+        try:
+            def known_nonempty(p):
+                if isinstance(p, str):
+                    return p != ""
+                if isinstance(p, IdStr):
+                    # identifiers / node ids are non-empty; an earlier unmodelled string may be empty
+                    return not (z3.is_const(p.code) and p.code.decl().name().startswith("str!"))
+                return bool(getattr(p, "nonempty", False))
+
+            nonempty = any(known_nonempty(p) for p in (parts or []))
+        except TypeError:
+            nonempty = False
+        if nonempty:
+            self.ps.assume(r.code != self.intern_literal(""))
+        return r
 
     def str_concat(self, a, b):
         if isinstance(a, str) and isinstance(b, str):
             return a + b
+        if isinstance(a, str) and a == "" and isinstance(b, (IdStr, OpaqueStr)):
+            return b
+        if isinstance(b, str) and b == "" and isinstance(a, (IdStr, OpaqueStr)):
+            return a
         if hasattr(a, "concat"):
             return a.concat(self, b, False)
         if hasattr(b, "concat"):
